@@ -584,7 +584,7 @@ func (ti onHeapTableIndex) ResolveShortHash(short []byte) ([]string, error) {
 
 		// Find last equal
 		pIdxU = pIdxL + 1
-		for sPrefix == ti.prefixAt(pIdxU) {
+		for pIdxU < ti.count && sPrefix == ti.prefixAt(pIdxU) {
 			pIdxU++
 		}
 	} else {
@@ -600,6 +600,9 @@ func (ti onHeapTableIndex) ResolveShortHash(short []byte) ([]string, error) {
 	// Go through all equal prefixes
 	var res []string
 	for i := pIdxL; i < pIdxU; i++ {
+		if ti.ordinalAt(i) >= ti.count {
+			return nil, ErrInvalidTableFile
+		}
 		// Get full hash at index
 		h := ti.hashAt(i)
 
